@@ -39,6 +39,7 @@ type Contract struct {
 	Modifies  []string // nil = unspecified (= nothing for verified functions if ModSet)
 	ModSet    bool
 	Loops     map[int]*LoopSpec
+	RangeLoops map[int]*LoopSpec
 	NoPanic   bool
 	Inline    bool
 	Pure      bool // modifies nothing & result is a function of args (uninterpreted)
@@ -91,6 +92,7 @@ type UFunc struct {
 type SMTAxiom struct {
 	Name string
 	Text string
+	For  []string // restrict to units of these function keys (empty = wherever the ufunc is applied)
 }
 
 type LockInv struct {
@@ -131,7 +133,7 @@ func newContractSet() *ContractSet {
 }
 
 var clauseKw = map[string]bool{"props": true, "tier": true, "requires": true, "ensures": true, "modifies": true, "loop": true,
-	"panics": true, "inline": true, "pure": true, "assumes": true, "universe": true, "fresh": true, "params": true, "note": true, "funcparam": true, "ghostset": true}
+	"panics": true, "inline": true, "pure": true, "assumes": true, "universe": true, "fresh": true, "params": true, "note": true, "funcparam": true, "ghostset": true, "rangeloop": true}
 
 var topKw = map[string]bool{"changhost": true, "lockonly": true, "lockinv": true, "lockguar": true, "ufunc": true, "smtaxiom": true, "func": true, "trusted": true, "spec": true, "ghost": true, "lemma": true, "axiom": true, "purepkg": true}
 
@@ -369,7 +371,12 @@ func (cs *ContractSet) parseFile(fset *token.FileSet, f *ast.File, pkgPath strin
 				errf(it, "bad smtaxiom")
 				continue
 			}
-			cs.Axioms = append(cs.Axioms, &SMTAxiom{Name: strings.TrimSpace(it.rest[:i]), Text: strings.TrimSpace(it.rest[i+1:])})
+			hd := strings.Fields(it.rest[:i])
+			ax := &SMTAxiom{Name: hd[0], Text: strings.TrimSpace(it.rest[i+1:])}
+			if len(hd) > 2 && hd[1] == "for" {
+				ax.For = hd[2:]
+			}
+			cs.Axioms = append(cs.Axioms, ax)
 			cur = nil
 		case "purepkg":
 			cs.PurePkgs = append(cs.PurePkgs, strings.Fields(it.rest)...)
@@ -395,7 +402,7 @@ func (cs *ContractSet) parseFile(fset *token.FileSet, f *ast.File, pkgPath strin
 				if strings.HasPrefix(strings.TrimSpace(it.rest), "* except") {
 					cur.Modifies = append(cur.Modifies, strings.ReplaceAll(strings.TrimSpace(it.rest), ",", " "))
 				} else if strings.TrimSpace(it.rest) != "nothing" {
-					for _, m := range strings.Split(it.rest, ",") {
+					for _, m := range splitTop(it.rest) {
 						if m = strings.TrimSpace(m); m != "" {
 							cur.Modifies = append(cur.Modifies, m)
 						}
@@ -465,7 +472,7 @@ func (cs *ContractSet) parseFile(fset *token.FileSet, f *ast.File, pkgPath strin
 					fp.Ensures = append(fp.Ensures, mkClause(it2, "ensures"))
 				case "modifies":
 					if rest != "nothing" {
-						for _, m := range strings.Split(rest, ",") {
+						for _, m := range splitTop(rest) {
 							if m = strings.TrimSpace(m); m != "" {
 								fp.Modifies = append(fp.Modifies, m)
 							}
@@ -479,7 +486,7 @@ func (cs *ContractSet) parseFile(fset *token.FileSet, f *ast.File, pkgPath strin
 				if len(fs) >= 2 {
 					cur.Universe[fs[0]] = fs[1:]
 				}
-			case "loop":
+			case "loop", "rangeloop":
 				fs := strings.Fields(it.rest)
 				if len(fs) < 3 {
 					errf(it, "bad loop clause")
@@ -490,10 +497,17 @@ func (cs *ContractSet) parseFile(fset *token.FileSet, f *ast.File, pkgPath strin
 					errf(it, "bad loop number")
 					continue
 				}
-				ls := cur.Loops[n]
+				tbl := cur.Loops
+				if it.kw == "rangeloop" {
+					if cur.RangeLoops == nil {
+						cur.RangeLoops = map[int]*LoopSpec{}
+					}
+					tbl = cur.RangeLoops
+				}
+				ls := tbl[n]
 				if ls == nil {
 					ls = &LoopSpec{}
-					cur.Loops[n] = ls
+					tbl[n] = ls
 				}
 				rest := strings.TrimSpace(strings.TrimPrefix(strings.TrimSpace(strings.TrimPrefix(it.rest, fs[0])), fs[1]))
 				it2 := it
@@ -512,4 +526,34 @@ func (cs *ContractSet) parseFile(fset *token.FileSet, f *ast.File, pkgPath strin
 			}
 		}
 	}
+}
+
+// splitTop splits at commas that are outside parentheses, brackets and string literals.
+func splitTop(s string) []string {
+	var out []string
+	depth := 0
+	inStr := false
+	start := 0
+	for i := 0; i < len(s); i++ {
+		c := s[i]
+		if c == '"' {
+			inStr = !inStr
+		}
+		if inStr {
+			continue
+		}
+		switch c {
+		case '(', '[':
+			depth++
+		case ')', ']':
+			depth--
+		case ',':
+			if depth == 0 {
+				out = append(out, s[start:i])
+				start = i + 1
+			}
+		}
+	}
+	out = append(out, s[start:])
+	return out
 }
